@@ -249,6 +249,23 @@ typedef struct {
 extern ADF_FILE *ADF_file;
 extern int maximum_files;
 
+#ifdef CGNS_VERIF
+/* verification hooks (only with -DCGNS_VERIF, add-only): a callback invoked at the exit of the block-buffer,
+   priority-stack and sub-node-table routines, and a read-only copy of the static cache state.
+   op = code | detail<<8; READ detail: 0 buffer hit, 1 from write buffer, 2 block load, 3 large; STACK: mode | type<<4 */
+enum { ADFI_VT_READ = 1, ADFI_VT_WRITE, ADFI_VT_FLUSH, ADFI_VT_STACK, ADFI_VT_ADD_CHILD, ADFI_VT_DEL_CHILD, ADFI_VT_OPEN };
+typedef struct {
+   long long rd_block, rd_file, rd_num, wr_block, wr_file, wr_flush ;
+   const char *rd_buf, *wr_buf ;
+   struct { int file_index ; unsigned long long block ; unsigned int offset ; int type, priority ; const char *data ; } stk[50] ;
+   long counters[8] ;   /* 0-3 reads by READ detail, 4 write-buffer flushes, 5 multi-block writes, 6 stack hits, 7 evictions */
+   double last_link_ID ;
+} ADFI_VERIF_STATE ;
+extern void (*ADFI_verif_trace)( int op, int file_index, unsigned long block, unsigned long offset,
+                                 long long length, const char *data, int error ) ;
+extern void ADFI_verif_cache_state( ADFI_VERIF_STATE *out ) ;
+#endif
+
 /* - - - - - - - - - - - - - - - - - - - - - - - - - - - - - - - - - - - */
 /* - - - - - - - - - - - - - - - - - - - - - - - - - - - - - - - - - - - */
 
